@@ -215,7 +215,7 @@ func runSeq(rec *mon.Recorder, e *env, c int) {
 	fail := func(g *group, gi int, sym, detail string) {
 		violated = true
 		ctx := "plain"
-		for _, f := range []string{"deleted-group", "snapshot-install-inside-log", "snapshot-install-beyond-log", "reopened", "local-snapshot"} {
+		for _, f := range []string{"deleted-group-object-reused", "deleted-group", "snapshot-install-inside-log", "snapshot-install-beyond-log", "reopened", "local-snapshot"} {
 			if g.flags[f] {
 				ctx = f
 				break
@@ -435,10 +435,17 @@ func runSeq(rec *mon.Recorder, e *env, c int) {
 					fail(g, gi, "delete-group-error", err.Error())
 					return
 				}
-				g.w = wal.NewBadgerWAL(e.db, g.id)
+				g.flags = map[string]bool{"deleted-group": true}
+				if s%2 == 0 {
+					g.w = wal.NewBadgerWAL(e.db, g.id)
+				} else {
+					// the same store object goes on being used (what a partition does when its
+					// replica is removed from this node and added back later)
+					calls[len(calls)-1] = fmt.Sprintf("g%d.DeleteGroup+same-object", gi)
+					g.flags["deleted-group-object-reused"] = true
+				}
 				g.ref = etcdRaft.NewMemoryStorage()
 				g.term, g.vote, g.commit = 0, 0, 0
-				g.flags = map[string]bool{"deleted-group": true}
 			}
 		}()
 		if violated {
